@@ -76,24 +76,17 @@ theorem dispatch_good (exts : List Row) (s : Stanza) (h : ∀ r ∈ exts, r.good
       have hresp' : isResp s.type = false := by simpa using hresp
       simp [answeredRight, answeredTF, hreq', hresp']
 
-/-- one configuration and stanza that is not answered right refutes the full statement -/
-theorem refute (ms : List Mgr) (s : Stanza)
-    (h : answeredRight s (dispatch (ms.map rowOf) s).sent = false) : ¬ FullC08 := by
-  intro hf; have := hf ms s; rw [h] at this; exact Bool.noConfusion this
-
-/-! ### Row by row: good exactly outside the defect cells, for every stanza -/
+/-! ### Row by row: every bundled handler is good at every stanza -/
 
 theorem run_pass (m : Mgr) (s : Stanza) (h : (rowOf m).beh = passBeh) : (rowOf m).good s = true := by
   simp only [Row.good, Row.run, h, passBeh]
   split <;> cases hr : isReq s.type <;> cases hp : isResp s.type <;>
     simp [Beh.goodFor, goodTF, Beh.pass, hr, hp]
 
-
 /-
-Pattern: unfold the handler and the defect predicate, abstract every look at the children
-(`headIs …`, `namedHasNs …`, flags) into an arbitrary Bool, abstract type / sender / id / entry, and decide
-the remaining finite case split.  Nothing about the list of children is assumed, so each lemma
-holds for stanzas with any number of children.
+Pattern: unfold the handler, abstract every look at the children (`headIs …`, `namedHasNs …`, flags) into an
+arbitrary Bool, abstract type / sender / id / entry, and decide the remaining finite case split.  Nothing
+about the list of children is assumed, so each case holds for stanzas with any number of children.
 -/
 local macro "finish_cases" : tactic => `(tactic| (
   generalize Stanza.type _ = t
@@ -101,184 +94,89 @@ local macro "finish_cases" : tactic => `(tactic| (
   generalize Stanza.frm _ = f
   cases t <;> cases e <;> cases f <;> decide))
 
-theorem vcard_exact (s : Stanza) : (rowOf .vcard).good s = !(rowOf .vcard).defect s := by
-  simp only [rowOf, Row.good, Row.run, Row.defect, defectCell, vcardBeh, Beh.goodFor]
-  generalize headIs s .vCard .vcard = a
-  cases a <;> finish_cases
-
-theorem roster_exact (s : Stanza) : (rowOf .roster).good s = !(rowOf .roster).defect s := by
-  simp only [rowOf, Row.good, Row.run, Row.defect, defectCell, rosterBeh, Beh.goodFor]
-  generalize headIs s .query .roster = a
-  cases a <;> finish_cases
-
-theorem version_exact (s : Stanza) : (rowOf .version).good s = !(rowOf .version).defect s := by
-  simp only [rowOf, Row.good, Row.run, Row.defect, defectCell, versionBeh, Beh.goodFor]
-  generalize headIs s .query .version = a
-  cases a <;> finish_cases
-
-theorem time_exact (s : Stanza) : (rowOf .entityTime).good s = !(rowOf .entityTime).defect s := by
-  simp only [rowOf, Row.good, Row.run, Row.defect, defectCell, timeBeh, Beh.goodFor]
-  generalize headIs s .time .time = a
-  cases a <;> finish_cases
-
-theorem disco_exact (s : Stanza) : (rowOf .discovery).good s = !(rowOf .discovery).defect s := by
-  simp only [rowOf, Row.good, Row.run, Row.defect, defectCell, discoBeh, Beh.goodFor]
-  generalize headIs s .query .discoInfo = a
-  generalize headIs s .query .discoItems = b
-  generalize headFlag s = c
-  cases a <;> cases b <;> cases c <;> finish_cases
-
-theorem archive_exact (s : Stanza) : (rowOf .archive).good s = !(rowOf .archive).defect s := by
-  simp only [rowOf, Row.good, Row.run, Row.defect, defectCell, archiveBeh, Beh.goodFor]
-  generalize namedNsFlag s .chat .archive = a
-  generalize headIs s .list .archive = b
-  generalize headIs s .pref .archive = c
-  cases a <;> cases b <;> cases c <;> finish_cases
-
-theorem blocking_exact (sub : Bool) (s : Stanza) :
-    (rowOf (if sub then .blockingSub else .blocking)).good s
-      = !(rowOf (if sub then .blockingSub else .blocking)).defect s := by
-  cases sub <;>
-  · simp only [rowOf, Row.good, Row.run, Row.defect, defectCell, blockingBeh, Beh.goodFor,
-      Bool.false_eq_true, if_false, if_true]
-    generalize headIs s .block .blocking = a
-    generalize headIs s .unblock .blocking = b
-    cases a <;> cases b <;> finish_cases
-
-theorem bookmark_exact (s : Stanza) : (rowOf .bookmark).good s = !(rowOf .bookmark).defect s := by
-  simp only [rowOf, Row.good, Row.run, Row.defect, defectCell, bookmarkBeh, Beh.goodFor]
-  generalize headIs s .query .priv = a
-  generalize headFlag s = b
-  generalize s.id = i
-  cases a <;> cases b <;> cases i <;> finish_cases
-
-theorem mam_exact (s : Stanza) : (rowOf .mam).good s = !(rowOf .mam).defect s := by
-  simp only [rowOf, Row.good, Row.run, Row.defect, defectCell, mamBeh, Beh.goodFor]
-  generalize namedHasNs s .fin .mam = a
-  cases a <;> finish_cases
-
-theorem muc_exact (room : Bool) (s : Stanza) :
-    (rowOf (if room then .mucRoom else .muc)).good s = !(rowOf (if room then .mucRoom else .muc)).defect s := by
-  cases room <;>
-  · simp only [rowOf, Row.good, Row.run, Row.defect, defectCell, mucBeh, Beh.goodFor,
-      Bool.false_eq_true, if_false, if_true]
-    generalize namedHasNs s .query .mucAdmin = a
-    generalize namedHasNs s .query .mucOwner = b
-    cases a <;> cases b <;> finish_cases
-
-theorem registration_exact (s : Stanza) :
-    (rowOf .registration).good s = !(rowOf .registration).defect s := by
-  simp only [rowOf, Row.good, Row.run, Row.defect, defectCell, registrationBeh, Beh.goodFor]
-  generalize headIs s .query .register = a
-  generalize s.id = i
-  cases a <;> cases i <;> finish_cases
-
-theorem rpc_exact (s : Stanza) : (rowOf .rpc).good s = !(rowOf .rpc).defect s := by
-  simp only [rowOf, Row.good, Row.run, Row.defect, defectCell, rpcBeh, Beh.goodFor]
-  generalize namedHasNs s .query .rpc = a
-  generalize (named s .error).isSome = b
-  generalize namedFlag s .query = c
-  cases a <;> cases b <;> cases c <;> finish_cases
-
-theorem transfer_exact (s : Stanza) : (rowOf .transfer).good s = !(rowOf .transfer).defect s := by
-  simp only [rowOf, Row.good, Row.run, Row.defect, defectCell, transferBeh, Beh.goodFor]
-  generalize headIs s .close .ibb = a
-  generalize headIs s .data .ibb = b
-  generalize headIs s .openT .ibb = c
-  generalize headIs s .query .bytestreams = d
-  generalize namedHasNs s .si .si = g
-  cases a <;> cases b <;> cases c <;> cases d <;> cases g <;> finish_cases
-
-theorem uploadRequest_exact (s : Stanza) :
-    (rowOf .uploadRequest).good s = !(rowOf .uploadRequest).defect s := by
-  simp only [rowOf, Row.good, Row.run, Row.defect, defectCell, uploadRequestBeh, Beh.goodFor]
-  generalize headIs s .slot .upload = a
-  generalize headIs s .request .upload = b
-  cases a <;> cases b <;> finish_cases
-
-theorem pass_exact (m : Mgr) (s : Stanza) (h : (rowOf m).beh = passBeh)
-    (hd : ∀ s, defectCell (rowOf m).mgr s = false) :
-    (rowOf m).good s = !(rowOf m).defect s := by
-  rw [run_pass m s h]
-  simp only [Row.defect, hd]
-  cases s.enc <;> cases (rowOf m).newStyle <;> rfl
-
-/-- every row is good exactly outside its defect cells — for every stanza, any number of children -/
-theorem good_iff_not_defect (m : Mgr) (s : Stanza) : (rowOf m).good s = !(rowOf m).defect s := by
-  cases m
-  case vcard => exact vcard_exact s
-  case roster => exact roster_exact s
-  case version => exact version_exact s
-  case entityTime => exact time_exact s
-  case discovery => exact disco_exact s
-  case archive => exact archive_exact s
-  case blocking => exact blocking_exact false s
-  case blockingSub => exact blocking_exact true s
-  case bookmark => exact bookmark_exact s
-  case mam => exact mam_exact s
-  case muc => exact muc_exact false s
-  case mucRoom => exact muc_exact true s
-  case registration => exact registration_exact s
-  case rpc => exact rpc_exact s
-  case transfer => exact transfer_exact s
-  case uploadRequest => exact uploadRequest_exact s
-  all_goals exact pass_exact _ s rfl (fun _ => rfl)
-
-/-! ### The handlers with /verif/fixes/C08-*.diff applied are good everywhere -/
-
-theorem fixed_good (m : Mgr) (s : Stanza) : (rowOfFixed m).good s = true := by
-  have hbase : ∀ m', (rowOf m').defect s = false → (rowOf m').good s = true := by
-    intro m' h; rw [good_iff_not_defect, h]; rfl
-  have hnd : ∀ m', (∀ s', defectCell (rowOf m').mgr s' = false) → (rowOf m').good s = true := by
-    intro m' h; apply hbase; simp only [Row.defect, h]; cases s.enc <;> cases (rowOf m').newStyle <;> rfl
+theorem row_good (m : Mgr) (s : Stanza) : (rowOf m).good s = true := by
   cases m
   case vcard =>
-    simp only [rowOfFixed, Row.good, Row.run, vcardFixedBeh, Beh.goodFor]
+    simp only [rowOf, Row.good, Row.run, vcardBeh, Beh.goodFor]
     generalize headIs s .vCard .vcard = a
     cases a <;> finish_cases
   case roster =>
-    simp only [rowOfFixed, Row.good, Row.run, rosterFixedBeh, Beh.goodFor]
+    simp only [rowOf, Row.good, Row.run, rosterBeh, Beh.goodFor]
     generalize headIs s .query .roster = a
     cases a <;> finish_cases
+  case version =>
+    simp only [rowOf, Row.good, Row.run, versionBeh, Beh.goodFor]
+    generalize headIs s .query .version = a
+    cases a <;> finish_cases
+  case entityTime =>
+    simp only [rowOf, Row.good, Row.run, timeBeh, Beh.goodFor]
+    generalize headIs s .time .time = a
+    cases a <;> finish_cases
+  case discovery =>
+    simp only [rowOf, Row.good, Row.run, discoBeh, Beh.goodFor]
+    generalize headIs s .query .discoInfo = a
+    generalize headIs s .query .discoItems = b
+    generalize headFlag s = c
+    cases a <;> cases b <;> cases c <;> finish_cases
   case archive =>
-    simp only [rowOfFixed, Row.good, Row.run, archiveFixedBeh, archiveBeh, Beh.goodFor]
+    simp only [rowOf, Row.good, Row.run, archiveBeh, Beh.goodFor]
     generalize namedNsFlag s .chat .archive = a
     generalize headIs s .list .archive = b
     generalize headIs s .pref .archive = c
     cases a <;> cases b <;> cases c <;> finish_cases
+  case blocking =>
+    simp only [rowOf, Row.good, Row.run, blockingBeh, Beh.goodFor]
+    generalize headIs s .block .blocking = a
+    generalize headIs s .unblock .blocking = b
+    cases a <;> cases b <;> finish_cases
+  case blockingSub =>
+    simp only [rowOf, Row.good, Row.run, blockingBeh, Beh.goodFor]
+    generalize headIs s .block .blocking = a
+    generalize headIs s .unblock .blocking = b
+    cases a <;> cases b <;> finish_cases
   case bookmark =>
-    simp only [rowOfFixed, Row.good, Row.run, bookmarkFixedBeh, bookmarkBeh, Beh.goodFor]
+    simp only [rowOf, Row.good, Row.run, bookmarkBeh, Beh.goodFor]
     generalize headIs s .query .priv = a
     generalize headFlag s = b
     generalize s.id = i
     cases a <;> cases b <;> cases i <;> finish_cases
   case mam =>
-    simp only [rowOfFixed, Row.good, Row.run, mamFixedBeh, mamBeh, Beh.goodFor]
+    simp only [rowOf, Row.good, Row.run, mamBeh, Beh.goodFor]
     generalize namedHasNs s .fin .mam = a
     cases a <;> finish_cases
-  case uploadRequest =>
-    simp only [rowOfFixed, Row.good, Row.run, uploadRequestFixedBeh, uploadRequestBeh, Beh.goodFor]
-    generalize headIs s .slot .upload = a
-    generalize headIs s .request .upload = b
+  case muc =>
+    simp only [rowOf, Row.good, Row.run, mucBeh, Beh.goodFor]
+    generalize namedHasNs s .query .mucAdmin = a
+    generalize namedHasNs s .query .mucOwner = b
+    cases a <;> cases b <;> finish_cases
+  case mucRoom =>
+    simp only [rowOf, Row.good, Row.run, mucBeh, Beh.goodFor]
+    generalize namedHasNs s .query .mucAdmin = a
+    generalize namedHasNs s .query .mucOwner = b
     cases a <;> cases b <;> finish_cases
   case registration =>
-    simp only [rowOfFixed, Row.good, Row.run, registrationFixedBeh, registrationBeh, Beh.goodFor]
+    simp only [rowOf, Row.good, Row.run, registrationBeh, Beh.goodFor]
     generalize headIs s .query .register = a
     generalize s.id = i
     cases a <;> cases i <;> finish_cases
   case rpc =>
-    simp only [rowOfFixed, Row.good, Row.run, rpcFixedBeh, Beh.goodFor]
+    simp only [rowOf, Row.good, Row.run, rpcBeh, Beh.goodFor]
     generalize namedHasNs s .query .rpc = a
     generalize (named s .error).isSome = b
     cases a <;> cases b <;> finish_cases
   case transfer =>
-    simp only [rowOfFixed, Row.good, Row.run, transferFixedBeh, transferBeh, Beh.goodFor]
+    simp only [rowOf, Row.good, Row.run, transferBeh, Beh.goodFor]
     generalize headIs s .close .ibb = a
     generalize headIs s .data .ibb = b
     generalize headIs s .openT .ibb = c
     generalize headIs s .query .bytestreams = d
     generalize namedHasNs s .si .si = g
     cases a <;> cases b <;> cases c <;> cases d <;> cases g <;> finish_cases
-  all_goals exact hnd _ (fun _ => rfl)
+  case uploadRequest =>
+    simp only [rowOf, Row.good, Row.run, uploadRequestBeh, Beh.goodFor]
+    generalize headIs s .slot .upload = a
+    generalize headIs s .request .upload = b
+    cases a <;> cases b <;> finish_cases
+  all_goals exact run_pass _ s rfl
 
 end Qx.C08
